@@ -12,10 +12,12 @@ import (
 	"fmt"
 	"os"
 	"path/filepath"
+	"runtime"
 	"sort"
 	"strings"
 	"sync"
 	"testing"
+	"time"
 )
 
 const maxHashes = 400000
@@ -335,4 +337,52 @@ func Journal(prop, test string, c any) {
 	b, _ := json.Marshal(rp)
 	p := filepath.Join(dir, fmt.Sprintf("%s-%s-%d.json", prop, sanitize(test), os.Getpid()))
 	_ = os.WriteFile(p, b, 0o644)
+}
+
+// DeadlockWatch guards one case executed in a testing/synctest bubble against a deadlock on a sync.Mutex / RWMutex
+// inside the code under test: such a wait is not "durably blocking", so synctest.Wait would wait for ever and the run
+// would end as a budget time-out (inconclusive). Call it OUTSIDE the bubble (real time). If the case is still running
+// after 20 s (cases take milliseconds) and some goroutine with `needle` on its stack is found waiting for a lock in two
+// samples 5 s apart, the case is saved as a replay, a VERIF-FAIL line is printed and the process exits: a goroutine
+// that waits 5 s for a lock nobody releases is a deadlock, not slowness. The returned function stops the watch.
+func DeadlockWatch(prop, test string, c any, needle string) (stop func()) {
+	done := make(chan struct{})
+	blocked := func() map[string]string {
+		buf := make([]byte, 1<<22)
+		buf = buf[:runtime.Stack(buf, true)]
+		out := map[string]string{}
+		for _, g := range strings.Split(string(buf), "\n\n") {
+			nl := strings.IndexByte(g, '\n')
+			if nl < 0 {
+				continue
+			}
+			hdr := g[:nl]
+			if (strings.Contains(hdr, "Mutex") || strings.Contains(hdr, "semacquire")) && strings.Contains(g, needle) {
+				out[strings.Fields(hdr)[1]] = g
+			}
+		}
+		return out
+	}
+	go func() {
+		select {
+		case <-done:
+			return
+		case <-time.After(20 * time.Second):
+		}
+		first := blocked()
+		select {
+		case <-done:
+			return
+		case <-time.After(5 * time.Second):
+		}
+		for id, g := range blocked() {
+			if _, both := first[id]; both {
+				err := fmt.Errorf("the case is still running after 25 s of real time and goroutine %s has been waiting for a lock all along:\n%s", id, g)
+				p := SaveReplay(prop, test, "deadlock-on-lock", err, c)
+				fmt.Printf("VERIF-FAIL property=%s test=%s sig=%s replay=%s: %v\n", prop, test, "deadlock-on-lock", p, err)
+				os.Exit(1)
+			}
+		}
+	}()
+	return func() { close(done) }
 }
